@@ -3,6 +3,7 @@ package mysess_test
 import (
 	"bytes"
 	"testing"
+	"time"
 
 	"verif/internal/fix"
 	"verif/internal/mysess"
@@ -19,7 +20,7 @@ func TestSmoke(t *testing.T) {
 	w := fix.TheWorld()
 	tables := []mysess.TableDef{{Name: "t1", Cols: []mysess.ColumnSpec{{"id", mysess.Int}, {"data", mysess.Blob}, {"plain", mysess.Varchar}, {"num", mysess.BigInt}}}}
 	for _, caps := range []uint32{mysess.DefaultCaps, mysess.DefaultCaps | mysess.CapDeprecateEOF} {
-		s, err := mysess.Start(mysess.Config{SchemaYAML: yaml, KeyStore: w.KS, ClientID: w.Alice, Tables: tables, ClientCaps: caps})
+		s, err := mysess.Start(mysess.Config{SchemaYAML: yaml, KeyStore: w.KS, ClientID: w.Alice, Tables: tables, ClientCaps: caps, Settle: 5 * time.Millisecond})
 		if err != nil {
 			t.Fatal(err)
 		}
@@ -77,5 +78,90 @@ func TestSmoke(t *testing.T) {
 			t.Fatal(ps)
 		}
 		s.Close()
+	}
+}
+
+func TestStoreShapes(t *testing.T) {
+	st := mysess.NewStore([]mysess.TableDef{{Name: "t", Cols: []mysess.ColumnSpec{{"id", mysess.Int}, {"b", mysess.Blob}, {"s", mysess.Varchar}, {"n", mysess.BigInt}}}})
+	run := func(sql string, params ...mysess.Param) *mysess.Result {
+		t.Helper()
+		p, err := st.Prepare(sql)
+		if err != nil {
+			t.Fatalf("%s: %v", sql, err)
+		}
+		r, err := st.Exec(p, params)
+		if err != nil {
+			t.Fatalf("%s: %v", sql, err)
+		}
+		return r
+	}
+	run("INSERT INTO t VALUES (1, X'00ff', 'a\\'b\\\\c\\n', -9), (2, 0x4142, \"q\"\"q\", NULL), (3, _binary'raw\\0', '', 0)")
+	run("insert into `t` (`id`, s) values (?, ?)", mysess.Param{Type: mysess.TypeLong, B: mysess.IntBytes(mysess.TypeLong, 4)}, mysess.Param{Type: mysess.TypeVarString, B: []byte("bound")})
+	rows := st.Rows("t")
+	if len(rows) != 4 || string(rows[0][1].B) != "\x00\xff" || string(rows[0][2].B) != "a'b\\c\n" || string(rows[1][1].B) != "AB" || string(rows[1][2].B) != `q"q` || !rows[1][3].Null || string(rows[2][1].B) != "raw\x00" || !rows[3][1].Null || string(rows[3][2].B) != "bound" {
+		t.Fatalf("%v", rows)
+	}
+	if r := run("SELECT id, s AS alias FROM t WHERE (b = X'4142' OR id = 1) AND s <> 'zzz'"); len(r.Rows) != 2 || r.Fields[1].Name != "alias" || r.Fields[1].OrgName != "s" {
+		t.Fatalf("%v %v", r.Rows, r.Fields)
+	}
+	if r := run("select * from t where substr(b, 1, 2) = 0x4142"); len(r.Rows) != 1 || len(r.Fields) != 4 {
+		t.Fatalf("%v", r.Rows)
+	}
+	if r := run("select t.id from t where n is null and b is not null"); len(r.Rows) != 1 || string(r.Rows[0][0].B) != "2" {
+		t.Fatalf("%v", r.Rows)
+	}
+	if r := run("UPDATE t SET s = ?, n = 7 WHERE id = ?", mysess.Param{Type: mysess.TypeString, B: []byte("upd")}, mysess.Param{Type: mysess.TypeLongLong, B: mysess.IntBytes(mysess.TypeLongLong, 3)}); r.Affected != 1 {
+		t.Fatalf("%+v", r)
+	}
+	if r := run("select s, n from t where id = 3"); string(r.Rows[0][0].B) != "upd" || string(r.Rows[0][1].B) != "7" {
+		t.Fatalf("%v", r.Rows)
+	}
+	if r := run("DELETE FROM t WHERE id <> 3"); r.Affected != 3 || len(st.Rows("t")) != 1 {
+		t.Fatalf("%+v", r)
+	}
+	if r := run("SET NAMES utf8mb4"); len(r.Fields) != 0 {
+		t.Fatal("SET")
+	}
+	if _, err := st.Prepare("select * from nope"); err == nil {
+		t.Fatal("unknown table accepted")
+	}
+	if s, err := mysess.Inspect("insert into t (id, s) values (1, 'x'), (?, NULL)"); err != nil || s.Kind != "insert" || len(s.Rows) != 2 || s.Rows[1][0].Kind != "param" || s.Rows[1][1].Kind != "null" || s.NParams != 1 {
+		t.Fatalf("%+v %v", s, err)
+	}
+}
+
+const searchYAML = `schemas:
+  - table: t1
+    columns: [id, data, plain, num]
+    encrypted:
+      - column: data
+        searchable: true
+`
+
+func TestSearchable(t *testing.T) {
+	w := fix.TheWorld()
+	tables := []mysess.TableDef{{Name: "t1", Cols: []mysess.ColumnSpec{{"id", mysess.Int}, {"data", mysess.Blob}, {"plain", mysess.Varchar}, {"num", mysess.BigInt}}}}
+	s, err := mysess.Start(mysess.Config{SchemaYAML: searchYAML, KeyStore: w.KS, ClientID: w.Alice, Tables: tables, Settle: 5 * time.Millisecond})
+	if err != nil {
+		t.Fatal(err)
+	}
+	defer s.Close()
+	if rep, err := s.Query("insert into t1 (id, data, plain, num) values (1, 'needle', 'p', 1), (2, 'hay', 'p', 2)"); err != nil || rep.Error() != "" {
+		t.Fatalf("insert: %v %s", err, rep.Error())
+	}
+	rep, err := s.Query("select id, data from t1 where data = 'needle'")
+	if err != nil || rep.Error() != "" {
+		t.Fatalf("select: %v %s; database got %.400q", err, rep.Error(), s.DB.Received()[1].SQL)
+	}
+	if rs := rep.First(); len(rs.Rows) != 1 || string(rs.Rows[0][0].B) != "1" || string(rs.Rows[0][1].B) != "needle" {
+		t.Fatalf("rows: %v; database got %.300q", rs.Rows, s.DB.Received()[1].SQL)
+	}
+	st, err := s.Prepare("select id from t1 where data = ?")
+	if err != nil || st.Err != nil {
+		t.Fatalf("prepare: %v %v", err, st.Err)
+	}
+	rep, err = s.Execute(st, []mysess.Param{{Type: mysess.TypeVarString, B: []byte("hay")}})
+	if err != nil || rep.Error() != "" || len(rep.First().Rows) != 1 {
+		t.Fatalf("execute: %v %s %v; database got %d", err, rep.Error(), rep.First().Rows, len(s.DB.Received()))
 	}
 }
